@@ -2,8 +2,10 @@
 
     /venv/bin/python harness/pygen_selftest.py
 
-what must be refused is refused (fail closed), and one function that uses every accepted construct translates to the
-expected `do` block.  The meaning of the accepted constructs is checked elsewhere: the generated definitions of
+what must be refused is refused (fail closed), and three functions that together use every accepted construct translate
+to the expected `do` blocks (`f`: dictionaries, strings, if/elif/else; `g`: loops, comprehensions, sets, integers,
+`raise`, `with`, log calls; `h`: a state monad with reading, failing and acting atoms, bare `return`) and compute the
+same results in Python and in Lean on sampled inputs.  The meaning of the accepted constructs is checked elsewhere: the generated definitions of
 /repo's functions are proved equal to hand models that the differential runs compare with the real code.
 """
 import ast
@@ -20,17 +22,13 @@ REFUSED = {
     "for loop": "def f(d, x, o):\n    for k in d:\n        return k\n    return x\n",
     "while loop": "def f(d, x, o):\n    while x:\n        return x\n    return x\n",
     "assignment to a parameter": "def f(d, x, o):\n    x = 'a'\n    return x\n",
-    "local first assigned in a branch": "def f(d, x, o):\n    if x == 'a':\n        y = 'b'\n    else:\n        y = 'c'\n    return y\n",
     "aliased dictionary": "def f(d, x, o):\n    e = d\n    e['k'] = 'v'\n    return x\n",
     "store into a parameter dictionary": "def f(d, x, o):\n    d['k'] = 'v'\n    return x\n",
-    "read behind and": "def f(d, x, o):\n    if x == 'a' and d['k'] == 'b':\n        return 'y'\n    return x\n",
-    "read behind or": "def f(d, x, o):\n    if x == 'a' or d['k'] == 'b':\n        return 'y'\n    return x\n",
     "read in a conditional expression": "def f(d, x, o):\n    return d['k'] if x == 'a' else x\n",
     "chained comparison": "def f(d, x, o):\n    if x == 'a' == 'b':\n        return 'y'\n    return x\n",
     "falls off the end": "def f(d, x, o):\n    if x == 'a':\n        return 'y'\n",
     "falls off the end (elif)": "def f(d, x, o):\n    if x == 'a':\n        return 'y'\n    elif x == 'b':\n        return 'z'\n",
     "unknown call": "def f(d, x, o):\n    return x.upper()\n",
-    "augmented assignment": "def f(d, x, o):\n    y = 'a'\n    y += x\n    return y\n",
     "try": "def f(d, x, o):\n    try:\n        return d['k']\n    except KeyError:\n        return x\n",
     "with": "def f(d, x, o):\n    with x:\n        return x\n",
     "raise": "def f(d, x, o):\n    if x == 'a':\n        raise ValueError(x)\n    return x\n",
@@ -42,7 +40,6 @@ REFUSED = {
     "rebound": "def f(d, x, o):\n    return x\nf = None\n",
     "truthiness of a string": "def f(d, x, o):\n    if x:\n        return 'y'\n    return x\n",
     "truthiness of an optional": "def f(d, x, o):\n    if not o:\n        return 'y'\n    return x\n",
-    "substring test": "def f(d, x, o):\n    if x in 'abc':\n        return 'y'\n    return x\n",
     "membership in a variable": "def f(d, x, o):\n    if x in d:\n        return 'y'\n    return x\n",
     "keyword-only parameter": "def f(d, x, o, *, z=1):\n    return x\n",
     "other parameter list": "def f(d, o, x):\n    return x\n",
@@ -52,22 +49,105 @@ REFUSED = {
     "computed key": "def f(d, x, o):\n    return d[x]\n",
     "statement after return": "def f(d, x, o):\n    return x\n    return 'a'\n",
     "comparison of a string with a Boolean": "def f(d, x, o):\n    if x == True:\n        return 'y'\n    return x\n",
-    "changed type of a local": "def f(d, x, o):\n    y = 'a'\n    y = None\n    return x\n",
     "global": "def f(d, x, o):\n    global G\n    return x\n",
     "number": "def f(d, x, o):\n    if x == 1:\n        return 'y'\n    return x\n",
     "f-string": "def f(d, x, o):\n    return f'{x}'\n",
-    "concatenation": "def f(d, x, o):\n    return x + 'a'\n",
     "duplicate key": "def f(d, x, o):\n    e = {'a': 'b', 'a': 'c'}\n    return x\n",
     "dictionary unpacking": "def f(d, x, o):\n    e = {**d}\n    return x\n",
     "multiple assignment": "def f(d, x, o):\n    a = b = 'x'\n    return a\n",
     "tuple unpacking": "def f(d, x, o):\n    a, b = 'x', 'y'\n    return a\n",
     "delete": "def f(d, x, o):\n    e = {'a': 'b'}\n    del e['a']\n    return x\n",
     "module constant assigned twice": "K = ['a']\nK = ['b']\ndef f(d, x, o):\n    if x in K:\n        return 'y'\n    return x\n",
-    "module constant shadowed by a local": "K = ['a']\ndef f(d, x, o):\n    K = 'q'\n    if x in K:\n        return 'y'\n    return x\n",
     "is on a string": "def f(d, x, o):\n    if x is None:\n        return 'y'\n    return x\n",
     "unknown name": "def f(d, x, o):\n    return y\n",
     "async": "async def f(d, x, o):\n    return x\n",
+    "changed type of a local": "def f(d, x, o):\n    y = 'a'\n    y = None\n    if y is None:\n        return x\n    return x\n",
+    "local assigned in one branch only": "def f(d, x, o):\n    if x == 'a':\n        y = 'b'\n    return y\n",
+    "local read in the branch before it is assigned": "def f(d, x, o):\n    if x == 'a':\n        if y == 'q':\n            return 'z'\n        y = 'b'\n    else:\n        y = 'c'\n    return y\n",
+    "dead local assigned from an unassigned one": "def f(d, x, o):\n    if x == 'a':\n        z = y\n        y = 'b'\n    else:\n        y = 'c'\n    return y\n",
+    "augmented assignment to an undeclared name": "def f(d, x, o):\n    y += x\n    return x\n",
+    "truthiness of a number": "def f(d, x, o):\n    n = 1\n    if n:\n        return 'y'\n    return x\n",
+    "or between strings as a value": "def f(d, x, o):\n    return x or 'a'\n",
+    "and between lists as a value": "def f(d, x, o):\n    l = x.split() and ['a']\n    return x\n",
+    "order comparison of strings": "def f(d, x, o):\n    if x < 'a':\n        return 'y'\n    return x\n",
+    "division": "def f(d, x, o):\n    n = 4 / 2\n    if n == 2:\n        return 'y'\n    return x\n",
+    "float": "def f(d, x, o):\n    n = 1.5\n    if n == 2:\n        return 'y'\n    return x\n",
+    "size of a set as a value": "def f(d, x, o):\n    n = len({*x.split()})\n    if n == 2:\n        return 'y'\n    return x\n",
+    "size of a set compared with 1": "def f(d, x, o):\n    if len({*x.split()}) > 1:\n        return 'y'\n    return x\n",
+    "set minus list": "def f(d, x, o):\n    if len({*x.split()} - x.split()) > 0:\n        return 'y'\n    return x\n",
+    "set display of elements": "def f(d, x, o):\n    if len({x, 'a'}) > 0:\n        return 'y'\n    return x\n",
+    "set comparison": "def f(d, x, o):\n    if {*x.split()} == {*x.split()}:\n        return 'y'\n    return x\n",
+    "empty list without a declared type": "def f(d, x, o):\n    l = []\n    return x\n    ",
+    "list of lists": "def f(d, x, o):\n    l = [x.split()]\n    if l:\n        return 'y'\n    return x\n",
+    "nested comprehension": "def f(d, x, o):\n    l = [a + b for a in x.split() for b in x.split()]\n    if l:\n        return 'y'\n    return x\n",
+    "comprehension over a string": "def f(d, x, o):\n    l = [c for c in x]\n    if l:\n        return 'y'\n    return x\n",
+    "comprehension variable also assigned": "def f(d, x, o):\n    w = 'a'\n    l = [w for w in x.split()]\n    if l:\n        return w\n    return x\n",
+    "dictionary read in a comprehension": "def f(d, x, o):\n    l = [d['k'] for w in x.split()]\n    if l:\n        return 'y'\n    return x\n",
+    "dictionary comprehension": "def f(d, x, o):\n    e = {w: w for w in x.split()}\n    return x\n",
+    "any over a list value": "def f(d, x, o):\n    if any(x.split()):\n        return 'y'\n    return x\n",
+    "max of three": "def f(d, x, o):\n    n = max(1, 2, 3)\n    if n == 3:\n        return 'y'\n    return x\n",
+    "max of strings": "def f(d, x, o):\n    return max(x, 'a')\n",
+    "startswith of a tuple": "def f(d, x, o):\n    if x.startswith(('a', 'b')):\n        return 'y'\n    return x\n",
+    "len of a string": "def f(d, x, o):\n    if len(x) == 1:\n        return 'y'\n    return x\n",
+    "shadowed builtin": "def f(d, x, o):\n    len = 'a'\n    if len(x.split()) == 1:\n        return 'y'\n    return x\n",
+    "loop with continue": "def f(d, x, o):\n    n = 0\n    for w in x.split():\n        if w == 'a':\n            continue\n        n += 1\n    if n == 1:\n        return 'y'\n    return x\n",
+    "loop with break and no else": "def f(d, x, o):\n    n = 0\n    for w in x.split():\n        n += 1\n        if w == 'a':\n            break\n    if n == 1:\n        return 'y'\n    return x\n",
+    "flag loop whose else sets True": "def f(d, x, o):\n    for w in x.split():\n        b = w == 'a'\n        if b:\n            break\n    else:\n        b = True\n    if b:\n        return 'y'\n    return x\n",
+    "flag loop whose flag is set before": "def f(d, x, o):\n    b = True\n    for w in x.split():\n        b = w == 'a'\n        if b:\n            break\n    else:\n        b = False\n    if b:\n        return 'y'\n    return x\n",
+    "flag loop that reads the flag": "def f(d, x, o):\n    for w in x.split():\n        b = w == 'a'\n        b |= not b\n        if b:\n            break\n    else:\n        b = False\n    if b:\n        return 'y'\n    return x\n",
+    "flag loop whose flag holds a list": "def f(d, x, o):\n    for w in x.split():\n        b = w.split()\n        if b:\n            break\n    else:\n        b = False\n    if b:\n        return 'y'\n    return x\n",
+    "read behind and in an elif": "def f(d, x, o):\n    if x == 'a':\n        return 'y'\n    elif x == 'q' and d['k'] == 'v':\n        return 'z'\n    return x\n",
+    "read behind or of a string": "def f(d, x, o):\n    y = x or d['k']\n    return y\n",
+    "read behind and in a comprehension": "def f(d, x, o):\n    l = [w for w in x.split() if w == 'a' and d['k'] == w]\n    if l:\n        return 'y'\n    return x\n",
+    "loop updating two locals": "def f(d, x, o):\n    n = 0\n    m = 0\n    for w in x.split():\n        n += 1\n        m += 2\n    if n == m:\n        return 'y'\n    return x\n",
+    "loop updating an undeclared local": "def f(d, x, o):\n    for w in x.split():\n        n = 1\n    return x\n",
+    "search loop with an else branch": "def f(d, x, o):\n    for w in x.split():\n        if w == 'a':\n            return w\n        else:\n            return x\n    return x\n",
+    "dictionary read in a loop": "def f(d, x, o):\n    n = 0\n    for w in x.split():\n        if d['k'] == w:\n            n += 1\n    if n == 1:\n        return 'y'\n    return x\n",
+    "raise in a loop": "def f(d, x, o):\n    n = 0\n    for w in x.split():\n        if w == 'a':\n            raise ValueError('bad')\n        n += 1\n    return x\n",
+    "loop over a dictionary": "def f(d, x, o):\n    n = 0\n    for k in d:\n        n += 1\n    return x\n",
+    "loop variable assigned in the body": "def f(d, x, o):\n    n = 0\n    for w in x.split():\n        w = 'a'\n        n += 1\n    return x\n",
+    "loop variable used after the loop": "def f(d, x, o):\n    y = 'a'\n    for a in [x, 'b']:\n        y = a\n    return a\n",
+    "unrolled loop assigns what it runs over": "def f(d, x, o):\n    y = 'a'\n    for a in [y, 'b']:\n        y = a + 'c'\n    return y\n",
+    "unrolled loop with break": "def f(d, x, o):\n    y = 'a'\n    for a in [x, 'b']:\n        if a == 'b':\n            break\n        y = a\n    return y\n",
+    "unrolled loop over calls": "def f(d, x, o):\n    y = 'a'\n    for a in [x.lower(), 'b']:\n        y = a\n    return y\n",
+    "unrolled loop with a mismatching element": "def f(d, x, o):\n    y = 'a'\n    for a, b in [(x, 'b'), x]:\n        y = a\n    return y\n",
+    "undeclared exception": "def f(d, x, o):\n    if x == 'a':\n        raise KeyError('k')\n    return x\n",
+    "declared exception with another message": "def f(d, x, o):\n    if x == 'a':\n        raise ValueError('worse')\n    if x == 'b':\n        raise ValueError(f'bad {x}')\n    return x\n",
+    "exception message computed": "def f(d, x, o):\n    if x == 'a':\n        raise ValueError(x.upper())\n    if x == 'b':\n        raise ValueError(f'bad {x}')\n    return x\n",
+    "re-raise": "def f(d, x, o):\n    if x == 'a':\n        raise\n    if x == 'b':\n        raise ValueError(f'bad {x}')\n    return x\n",
+    "raise from": "def f(d, x, o):\n    if x == 'a':\n        raise ValueError('bad') from None\n    return x\n",
+    "declared exception no longer raised": "def f(d, x, o):\n    return x\n",
+    "log call with a computed argument": "def f(d, x, o):\n    if x == 'b':\n        raise ValueError(f'bad {x}')\n    logging.debug(d.pop('k'))\n    return x\n",
+    "unknown call as a statement": "def f(d, x, o):\n    if x == 'b':\n        raise ValueError(f'bad {x}')\n    d.clear()\n    return x\n",
+    "print": "def f(d, x, o):\n    if x == 'b':\n        raise ValueError(f'bad {x}')\n    print(x)\n    return x\n",
+    "with of an undeclared context manager": "def f(d, x, o):\n    if x == 'b':\n        raise ValueError(f'bad {x}')\n    with open(x) as fh:\n        return x\n",
+    "with whose value is used": "def f(d, x, o):\n    if x == 'b':\n        raise ValueError(f'bad {x}')\n    with lock(x) as l:\n        if l == 'a':\n            return 'y'\n    return x\n",
+    "raising atom in a conditional expression": "def f(d, x, o):\n    if x == 'b':\n        raise ValueError(f'bad {x}')\n    n = num(x) if x == 'a' else 1\n    if n == 1:\n        return 'y'\n    return x\n",
+    "raising atom in a comprehension": "def f(d, x, o):\n    if x == 'b':\n        raise ValueError(f'bad {x}')\n    l = [w for w in x.split() if num(w) == 1]\n    if l:\n        return 'y'\n    return x\n",
+    "call atom with a wrongly typed argument": "def f(d, x, o):\n    if x == 'b':\n        raise ValueError(f'bad {x}')\n    if num(1) == 1:\n        return 'y'\n    return x\n",
+    "action used as a value": "def f(d, x, o):\n    if x == 'b':\n        raise ValueError(f'bad {x}')\n    y = act(x)\n    if y == 'a':\n        return 'y'\n    return x\n",
+    "tuple assignment from a translated value": "def f(d, x, o):\n    a, b = x, x\n    return a\n",
+    "tuple assignment from a list without a declared error": "def f(d, x, o):\n    a, b = x.split()\n    return a\n",
+    "replace by a non-empty string": "def f(d, x, o):\n    return x.replace('a', 'b')\n",
+    "split at a longer separator": "def f(d, x, o):\n    if x.split('ab'):\n        return 'y'\n    return x\n",
+    "tuple assignment inside a branch": "def f(d, x, o):\n    if x == 'a':\n        a, b = x.partition(':')\n    return x\n",
+    "return None in a function with a value": "def f(d, x, o):\n    if x == 'a':\n        return None\n    return x\n",
+    "attribute of a string": "def f(d, x, o):\n    return x.real\n",
+    "undeclared field of a list element": "def f(d, x, o):\n    l = [w.name for w in x.split()]\n    if l:\n        return 'y'\n    return x\n",
 }
+
+# the specification the refusals above are tried with: one raising call atom, one action, one declared exception, log
+# calls ignored, `lock(...)` transparent
+REFUSE_SPEC = pygen.Spec("f", [("d", "SDict"), ("x", "String"), ("o", "Option String")],
+                         {"d": ("d", "sdict"), "x": ("x", "str"), "o": ("o", "optstr")}, ret="str", monad="except",
+                         calls={"num(_1)": ("numOf {1}", "int", "raises", ["str"]), "act(_1)": ("actOn {1}", "unit", "action")},
+                         raises=[("ValueError", "bad ", "Err.valueError")],
+                         ignored_calls={"logging.debug"}, transparent_with={"lock"})
+REFUSE_WITH_SPEC = ("undeclared exception", "declared exception with another message", "exception message computed", "re-raise",
+                    "raise from", "declared exception no longer raised", "log call with a computed argument",
+                    "unknown call as a statement", "print", "with of an undeclared context manager", "with whose value is used",
+                    "raising atom in a conditional expression", "raising atom in a comprehension",
+                    "call atom with a wrongly typed argument", "action used as a value", "raise in a loop")
 
 ACCEPTED_SRC = '''K = ("a", "b")
 
@@ -83,6 +163,11 @@ def f(d, x, o):
         y = "m" if o != "z" else x
     else:
         return e["t"]
+    if x == "q" and d["k"] == "v":
+        return "both"
+    w = o is None or d["z"] == "w" or x == "c"
+    if not w:
+        return "neither"
     if o is None:
         return y
     return d["z"]
@@ -98,9 +183,301 @@ ACCEPTED_LEAN = ['def f (d : SDict) (x : String) (o : Option String) : Except Er
                  '    y := (if (!(o == some "z")) then "m" else x)',
                  '  else',
                  '    return (← SDict.getItem e "t")',
+                 '  let mut pyTmp1 : Bool := (x == "q")',
+                 '  if pyTmp1 then',
+                 '    pyTmp1 := ((← SDict.getItem d "k") == "v")',
+                 '  if pyTmp1 then',
+                 '    return "both"',
+                 '  let mut pyTmp2 : Bool := (o == none)',
+                 '  if (!pyTmp2) then',
+                 '    pyTmp2 := ((← SDict.getItem d "z") == "w")',
+                 '  if (!pyTmp2) then',
+                 '    pyTmp2 := (x == "c")',
+                 '  let mut w : Bool := pyTmp2',
+                 '  if (!w) then',
+                 '    return "neither"',
                  '  if (o == none) then',
                  '    return y',
                  '  return (← SDict.getItem d "z")']
+
+
+ACCEPTED2_SRC = '''K = ("a", "b")
+
+
+def g(x, l, n):
+    """doc"""
+    logging.debug(f"called with {x}")
+    words = x.split()
+    if len(l) == 0 and n < 0:
+        raise ValueError(f"negative {n} for {x}")
+    if n > 100:
+        raise RuntimeError("too big")
+    total = 0
+    for w in words:
+        if w.startswith("a"):
+            total += 2
+        elif "z" in w:
+            total -= 1
+        else:
+            total = total + len(l)
+    for a, b in [(x, "first"), ("zz", "z")]:
+        if b in a:
+            total += 10
+    lows = [w.lower() for w in l if w != "skip"]
+    bad = {*lows} - {*words}
+    both = {*lows} & {*words}
+    if n == 7:
+        kind = "seven"
+    elif len(bad) > 0:
+        kind = "bad"
+    else:
+        kind = "ok"
+    msg = ", ".join(bad) if bad else "NONE"
+    logging.info(f"bad: {msg}")
+    flag = any(w in l for w in words) or all(len(w.split()) == 1 for w in l)
+    with lock(x, n) as held:
+        for w in l:
+            first = w + "?"
+            if first in K or w == x:
+                return (first, total, flag, lows)
+    for w in l:
+        has = w.startswith("q")
+        has |= w in words
+        has = has or w == "B"
+        if has:
+            break
+    else:
+        has = False
+    m = max(n, 1) + min(total, 3) - (0 if both else 5) * 2
+    picked = words or l
+    out = []
+    for w in picked:
+        if w not in K:
+            out.append(w + "!")
+        else:
+            out += [w, "k"]
+    head, tail = x.replace("z", "").split("b")
+    out += [head, tail]
+    return (kind, m, flag and not has, out)
+'''
+
+SPEC2 = pygen.Spec("g", [("x", "String"), ("l", "List String"), ("n", "Int")],
+                   {"x": ("x", "str"), "l": ("l", "slist"), "n": ("n", "int")},
+                   ret=("tuple", ("str", "int", "bool", "slist")), monad="except",
+                   raises=[("ValueError", "negative {} for", "Err.negativeTries"), ("RuntimeError", "too big", "Err.runtimeError")],
+                   ignored_calls={"logging.debug", "logging.info"}, transparent_with={"lock"}, local_types={"out": "slist"},
+                   unpack_error="Err.negativeTries",
+                   prelude=["def pyStartsWith (s p : String) : Bool := isPrefixL p.toList s.toList",
+                            "def pyRemoveChar (c : Char) (s : String) : String := String.ofList (s.toList.filter (· != c))"])
+
+ACCEPTED2_LEAN = [
+    'def pyStartsWith (s p : String) : Bool := isPrefixL p.toList s.toList',
+    'def pyRemoveChar (c : Char) (s : String) : String := String.ofList (s.toList.filter (· != c))',
+    '',
+    'def g (x : String) (l : List String) (n : Int) : Except Err (String × Int × Bool × List String) := do',
+    '  let mut words : List String := (splitWs x)',
+    '  if (((Int.ofNat l.length) == (0 : Int)) && (decide (n < (0 : Int)))) then',
+    '    throw Err.negativeTries',
+    '  if (decide (n > (100 : Int))) then',
+    '    throw Err.runtimeError',
+    '  let mut total : Int := (0 : Int)',
+    '  total := words.foldl (fun total w => (if (pyStartsWith w "a") then (total + (2 : Int)) else '
+    '(if (isSubstr "z" w) then (total - (1 : Int)) else (total + (Int.ofNat l.length))))) total',
+    '  if (isSubstr "first" x) then',
+    '    total := (total + (10 : Int))',
+    '  if (isSubstr "z" "zz") then',
+    '    total := (total + (10 : Int))',
+    '  let mut lows : List String := ((l.filter (fun w => (!(w == "skip")))).map (fun w => (lower w)))',
+    '  let mut bad : List String := (lows.filter (fun pyElem => !(words.contains pyElem)))',
+    '  let mut both : List String := (lows.filter (fun pyElem => words.contains pyElem))',
+    '  let mut kind : String := ""',
+    '  if (n == (7 : Int)) then',
+    '    kind := "seven"',
+    '  else if (!bad.isEmpty) then',
+    '    kind := "bad"',
+    '  else',
+    '    kind := "ok"',
+    '  let mut flag : Bool := ((words.any (fun w => (l.contains w))) || (l.all (fun w => ((Int.ofNat (splitWs w).length) == (1 : Int)))))',
+    '  match (l.find? (fun w => let first : String := (w ++ "?"); ((["a", "b"].contains first) || (w == x)))) with',
+    '  | some w =>',
+    '    let first : String := (w ++ "?")',
+    '    return (first, total, flag, lows)',
+    '  | none => pure ()',
+    '  let mut has : Bool := (l.any (fun w => ((pyStartsWith w "q") || (words.contains w) || (w == "B"))))',
+    '  let mut m : Int := (((max n (1 : Int)) + (min total (3 : Int))) - ((if (!both.isEmpty) then (0 : Int) else (5 : Int)) * (2 : Int)))',
+    '  let mut picked : List String := (let pyOrLeft : List String := words; if pyOrLeft.isEmpty then l else pyOrLeft)',
+    '  let mut out : List String := []',
+    '  out := picked.foldl (fun out w => (if (!(["a", "b"].contains w)) then (out ++ [(w ++ "!")]) else (out ++ [w, "k"]))) out',
+    '  let mut head : String := ""',
+    '  let mut tail : String := ""',
+    "  match (splitChar 'b' (pyRemoveChar 'z' x)) with",
+    '  | [pyPart1_1, pyPart1_2] =>',
+    '    head := pyPart1_1',
+    '    tail := pyPart1_2',
+    '  | _ => throw Err.negativeTries',
+    '  out := (out ++ [head, tail])',
+    '  return (kind, m, (flag && (!has)), out)']
+
+
+def differential2():
+    """the second accepted function (loops, comprehensions, sets, integers, raise, with, log calls) in Python and its
+    translation in Lean on the same 150 inputs"""
+    import logging
+    import subprocess
+    import tempfile
+    import contextlib
+    import vlib
+    ns = {"logging": logging, "lock": lambda *a: contextlib.nullcontext()}
+    exec(ACCEPTED2_SRC, ns)
+    tree = ast.parse(ACCEPTED2_SRC)
+    lean = pygen.translate(pygen.find_function(tree, "g"), SPEC2, pygen.module_constants(tree))
+    cases, want = [], []
+
+    def ll(xs):
+        return "([" + ", ".join(pygen.lean_str(v) for v in xs) + "] : List String)"
+    for x in ("", "a b", "ab zq a", "skip q", "A  b\tzz", "first"):
+        for l in ([], ["a"], ["Skip", "skip", "B"], ["q x", "zz"], ["ab zq a", "b"]):
+            for n in (-1, 0, 7, 3, 101):
+                try:
+                    k, m, f, o = ns["g"](x, list(l), n)
+                    want.append(f"ok {k} {m} {str(f).lower()} [{', '.join(o)}]")
+                except ValueError:
+                    want.append("ValueError")
+                except RuntimeError:
+                    want.append("RuntimeError")
+                cases.append(f"g {pygen.lean_str(x)} {ll(l)} ({n})")
+    src = ["import I2N.Model.Rules", "open I2N.Rules"] + lean + [
+        "def shw (r : Except Err (String × Int × Bool × List String)) : String := match r with",
+        "  | .ok (k, m, f, o) => s!\"ok {k} {m} {f} {o}\"",
+        "  | .error .negativeTries => \"ValueError\" | .error .runtimeError => \"RuntimeError\" | .error _ => \"other\"",
+        "#eval IO.println (\"\\n\".intercalate [" + ", ".join(f"shw ({c})" for c in cases) + "])"]
+    fd, tmp = tempfile.mkstemp(suffix=".lean", prefix="pygen_selftest_", dir=vlib.LEAN)
+    try:
+        with os.fdopen(fd, "w") as fh:
+            fh.write("\n".join(src) + "\n")
+        p = subprocess.run(["lake", "env", "lean", tmp], cwd=vlib.LEAN, stdout=subprocess.PIPE, stderr=subprocess.STDOUT,
+                           text=True, timeout=600)
+    finally:
+        os.unlink(tmp)
+    got = [l for l in p.stdout.splitlines() if l]
+    if p.returncode != 0 or got != want:
+        diff = [f"{c}: python {w!r}, lean {g!r}" for c, w, g in zip(cases, want, got) if w != g][:5]
+        return [f"differential run 2: lean exit {p.returncode}, {len(got)} answers for {len(want)} cases; " + "; ".join(diff)
+                + (p.stdout[-600:] if p.returncode else "")]
+    return []
+
+
+ACCEPTED3_SRC = '''def h(x, n):
+    os.makedirs(os.path.dirname(x), exist_ok=True)
+    limit = cfg.get_numeric("limit", 3)
+    if peek() > n and not small(n):
+        return
+    with lock(x, limit) as held:
+        bump(n)
+        if x == "boom" or peek() == 7:
+            raise ValueError(f"bad {x}")
+        if digest(x) == "":
+            bump(100)
+        if n == 5:
+            twice = n + n
+            bump(twice)
+            cfg.hook = lambda _: None
+        other(x, n)
+    bump(1)
+'''
+
+SPEC3 = pygen.Spec("h", [("x", "String"), ("n", "Int")], {"x": ("x", "str"), "n": ("n", "int")}, ret="unit",
+                   monad="StateT Int (Except Err)",
+                   calls={"peek()": ("peekM", "int", "reads"), "small(_1)": ("(decide ({1} < 2))", "bool", "pure", ["int"]),
+                          "bump(_1)": ("bumpM {1}", "unit", "action", ["int"]),
+                          "digest(_1)": ("(digestOf {1})", "Option Nat", "pure", ["str"]),
+                          "other(_1, _2)": ("otherM {1} {2}", "unit", "action", ["str", "int"])},
+                   atoms={"''": ("(none : Option Nat)", "Option Nat")}, type_defaults={"Option Nat": "none"},
+                   stmts={"cfg.hook = lambda _: None": "bumpM 1000"},
+                   raises=[("ValueError", "bad {}", "Err.valueError")], ignored_calls={"os.makedirs"},
+                   transparent_with={"lock"},
+                   prelude=["def peekM : StateT Int (Except Err) Int := get",
+                            "def bumpM (k : Int) : StateT Int (Except Err) Unit := modify (· + k)",
+                            "def digestOf (x : String) : Option Nat := if x == \"void\" then none else some x.length",
+                            "def otherM (x : String) (n : Int) : StateT Int (Except Err) Unit :=",
+                            "  if x == \"other\" then throw Err.keyError else modify (· * 2 + n)"])
+
+ACCEPTED3_LEAN = ['def h (x : String) (n : Int) : StateT Int (Except Err) (Unit) := do',
+                  '  if ((decide ((← peekM) > n)) && (!(decide (n < 2)))) then',
+                  '    return ()',
+                  '  bumpM n',
+                  '  if ((x == "boom") || ((← peekM) == (7 : Int))) then',
+                  '    throw Err.valueError',
+                  '  if ((digestOf x) == (none : Option Nat)) then',
+                  '    bumpM (100 : Int)',
+                  '  if (n == (5 : Int)) then',
+                  '    let mut twice : Int := (n + n)',
+                  '    bumpM twice',
+                  '    bumpM 1000',
+                  '  otherM x n',
+                  '  bumpM (1 : Int)',
+                  '  return ()']
+
+
+def differential3():
+    """a function with effects (state monad: reads, actions, raise, `with`, bare return, dropped calls) in Python and
+    its translation in Lean from the same 48 start states / inputs"""
+    import contextlib
+    import subprocess
+    import tempfile
+    import types
+    import vlib
+    st = [0]
+
+    def other(x, n):
+        if x == "other":
+            raise KeyError(x)
+        st[0] = st[0] * 2 + n
+    class Cfg:
+        def get_numeric(self, k, d):
+            return d
+
+        def __setattr__(self, k, v):                     # the pinned statement `cfg.hook = …` stands for `bumpM 1000`
+            st[0] += 1000
+    ns = {"os": types.SimpleNamespace(makedirs=lambda *a, **k: None, path=types.SimpleNamespace(dirname=lambda p: p)),
+          "cfg": Cfg(), "lock": lambda *a: contextlib.nullcontext(),
+          "peek": lambda: st[0], "small": lambda n: n < 2, "digest": lambda x: "" if x == "void" else "h" + x,
+          "bump": lambda k: st.__setitem__(0, st[0] + k), "other": other}
+    exec(ACCEPTED3_SRC, ns)
+    tree = ast.parse(ACCEPTED3_SRC)
+    lean = pygen.translate(pygen.find_function(tree, "h"), SPEC3, {})
+    cases, want = [], []
+    for x in ("a", "boom", "void", "other"):
+        for n in (0, 1, 3, 5):
+            for s0 in (0, 4, 6):
+                st[0] = s0
+                try:
+                    ns["h"](x, n)
+                    want.append(f"ok {st[0]}")
+                except ValueError:
+                    want.append("ValueError")
+                except KeyError:
+                    want.append("KeyError")
+                cases.append(f"(h {pygen.lean_str(x)} ({n})).run ({s0})")
+    src = ["import I2N.Model.Tunnel", "open I2N.Tunnel"] + lean + [
+        "def shw (r : Except Err (Unit × Int)) : String := match r with",
+        "  | .ok (_, s) => s!\"ok {s}\" | .error .valueError => \"ValueError\" | .error .keyError => \"KeyError\"",
+        "  | .error _ => \"other\"",
+        "#eval IO.println (\"\\n\".intercalate [" + ", ".join(f"shw ({c})" for c in cases) + "])"]
+    fd, tmp = tempfile.mkstemp(suffix=".lean", prefix="pygen_selftest_", dir=vlib.LEAN)
+    try:
+        with os.fdopen(fd, "w") as fh:
+            fh.write("\n".join(src) + "\n")
+        p = subprocess.run(["lake", "env", "lean", tmp], cwd=vlib.LEAN, stdout=subprocess.PIPE, stderr=subprocess.STDOUT,
+                           text=True, timeout=600)
+    finally:
+        os.unlink(tmp)
+    got = [l for l in p.stdout.splitlines() if l]
+    if p.returncode != 0 or got != want:
+        diff = [f"{c}: python {w!r}, lean {g!r}" for c, w, g in zip(cases, want, got) if w != g][:5]
+        return [f"differential run 3: lean exit {p.returncode}, {len(got)} answers for {len(want)} cases; " + "; ".join(diff)
+                + (p.stdout[-600:] if p.returncode else "")]
+    return []
 
 
 def differential():
@@ -142,21 +519,36 @@ def differential():
 
 
 def main():
-    bad = differential() if "--no-lean" not in sys.argv else []
+    bad = differential() + differential2() + differential3() if "--no-lean" not in sys.argv else []
     for what, src in REFUSED.items():
         try:
             tree = ast.parse(src)
-            pygen.translate(pygen.find_function(tree, "f"), SPEC, pygen.module_constants(tree))
+            pygen.translate(pygen.find_function(tree, "f"), REFUSE_SPEC if what in REFUSE_WITH_SPEC else SPEC,
+                            pygen.module_constants(tree))
             bad.append("NOT refused: " + what)
         except pygen.Unsupported:
             pass
+    for what in REFUSE_WITH_SPEC:
+        if what not in REFUSED:
+            bad.append("unknown refusal " + what)
+    tree = ast.parse(ACCEPTED2_SRC)
+    got2 = pygen.translate(pygen.find_function(tree, "g"), SPEC2, pygen.module_constants(tree))
+    got2 = got2[:got2.index("", 3)]
+    if got2 != ACCEPTED2_LEAN:
+        bad.append("unexpected translation of g:\n" + "\n".join(got2))
+    tree = ast.parse(ACCEPTED3_SRC)
+    got3 = pygen.translate(pygen.find_function(tree, "h"), SPEC3, {})
+    got3 = got3[len(SPEC3.prelude) + 1:]
+    got3 = got3[:got3.index("")]
+    if got3 != ACCEPTED3_LEAN:
+        bad.append("unexpected translation of h:\n" + "\n".join(got3))
     tree = ast.parse(ACCEPTED_SRC)
     got = pygen.translate(pygen.find_function(tree, "f"), SPEC, pygen.module_constants(tree))
     got = got[:got.index("")]
     if got != ACCEPTED_LEAN:
         bad.append("unexpected translation:\n" + "\n".join(got))
-    print(f"pygen selftest: {len(REFUSED)} refusals, 1 translation" +
-          (", 48 inputs through Python and the generated Lean" if "--no-lean" not in sys.argv else "") +
+    print(f"pygen selftest: {len(REFUSED)} refusals, 3 translations" +
+          (", 48 + 150 + 48 inputs through Python and the generated Lean" if "--no-lean" not in sys.argv else "") +
           f" checked, {len(bad)} problem(s)")
     for b in bad:
         print("  " + b)
